@@ -51,7 +51,8 @@ TraceQuery ==
              <<"C10.alias_identical", ~ok \/ (e.alias_out = e.out /\ e.alias_exact)>>,
              <<"C10.object_not_mutated", ~ok \/ ObjOfRec(e.post) = o>>,
              <<"C10.argument_not_mutated", ~ok \/ (e.arg_after = e.arg /\ e.arg_bitwise_same)>>,
-             <<"C10.repeatable", ~ok \/ ~seen \/ e.out = prev>>}))
+             <<"C10.repeatable", ~ok \/ ~seen \/ e.out = prev>>,
+             <<"C10.independent_of_call_history", ~ok \/ (e.fresh_out = e.out /\ e.fresh_exact)>>}))
 
 Next == TraceNew \/ TraceSwap \/ TraceQuery
 Spec == Init /\ [][Next]_vars
